@@ -1038,6 +1038,8 @@ class LangServer:
                 # The continuation mark of fixed form is not part of the statement
                 if file_obj.fixed and FRegex.FIXED_CONT.match(line):
                     line = " " * 6 + line[6:]
+                elif file_obj.fixed and FRegex.FIXED_ZERO.match(line):
+                    line = line[:5] + " " + line[6:]
                 if (line == "") or (line[0] == "#"):
                     continue
                 for match in NAME_REGEX.finditer(line):
